@@ -94,20 +94,20 @@ theorem insertTasks_append {ev flat r} (l₁ l₂ : List (String × Task)) (res 
     · rfl
     · exact ih _
 
-/-- the imported build-dep files are only available when every build dep has registered files -/
-theorem importedDepFiles_ok {files : FileTable} {l : List Name} {acc out : List String}
-    (h : importedDepFiles files l acc = .ok out) : ∀ d ∈ l, (files.get? d).isSome := by
+/-- (was `importedDepFiles_ok`: "the files are only available when every build dep has registered
+    files" — no longer true since a dep without an entry in the file table is skipped, e.g.
+    `importedDepFiles [] ["d"] [] = .ok []`.)  The loop can no longer fail. -/
+theorem importedDepFiles_total (files : FileTable) (l : List Name) (acc : List String) :
+    ∃ out, importedDepFiles files l acc = .ok out := by
   induction l generalizing acc with
-  | nil => intro d hd; cases hd
+  | nil => exact ⟨acc, rfl⟩
   | cons x xs ih =>
-    unfold importedDepFiles at h
-    split at h
-    · rename_i fs hfs
-      intro d hd
-      cases hd with
-      | head => simp [hfs]
-      | tail _ hm => exact ih h d hm
-    · cases h
+    unfold importedDepFiles
+    split
+    · exact ih _
+    · exact ih _
+
+example : importedDepFiles [] ["d"] [] = .ok [] := by decide
 
 /-- a context module contributes no statements and no flattened env -/
 theorem moduleStep_contextModule {ev st builder app r rules opts globals m menv bdeps ls}
